@@ -39,7 +39,7 @@ K_ANTI = "gc:antipodal:nan-distance"
 K_COINC = "dir:separated:coincident-pair:first-direction-only"
 K_SQUARE = "structured-mesh:equal-length-axes:read-as-1d"
 
-C08_INVS = ["WellFormed", "DirWithinIso", "EarlyExitSound", "EarlyFirstSame"]
+C08_INVS = ["WellFormed", "HalfOpen", "DirWithinIso", "EarlyExitSound", "EarlyFirstSame"]
 C09_INVS = {
     "iso": ["PermInvariant", "TranslationInvariant", "OrthoInvariant", "ShiftInvariant", "ScaleCovariant",
             "MissingIsRemoved", "PerFieldSkipping"],
@@ -212,9 +212,9 @@ SIZES = {
     ("C09", "quick"): dict(iso=dict(ns=(2, 3, 4, 5, 6), P=6, F=5, E=5),
                            dir=dict(ns=(2, 3, 4, 5), P=3, F=2, E=2, D=4, B=(0, 2)),
                            gc=dict(ns=(2, 3, 4, 5), P=8, F=3, E=5, reps=2),
-                           axis=dict(G=120, E=3), sub=dict(ns=(4, 5, 6, 7), P=4, F=2, E=3), cap=260),
-    ("C08", "thorough"): dict(iso=dict(ns=(2, 3, 4, 5, 6), P=40, F=16, E=16),
-                              dir=dict(ns=(2, 3, 4, 5, 6), P=12, F=4, E=5, D=10, B=(0, 1, 2, 3)),
+                           axis=dict(G=120, E=3), sub=dict(ns=(4, 5, 6, 7), P=4, F=2, E=3), cap=400),
+    ("C08", "thorough"): dict(iso=dict(ns=(2, 3, 4, 5, 6), P=32, F=16, E=16),
+                              dir=dict(ns=(2, 3, 4, 5, 6), P=10, F=3, E=4, D=7, B=(0, 1, 2, 3)),
                               gc=dict(ns=(2, 3, 4, 5, 6), P=40, F=6, E=12, reps=6),
                               axis=dict(G=3000, E=4), sub=None, cap=6000),
     ("C09", "thorough"): dict(iso=dict(ns=(2, 3, 4, 5, 6), P=16, F=8, E=8),
@@ -457,8 +457,10 @@ class Ctx:
         self.nontrivial = set()
         self.samples = []
         self.hits = {K_ANTI: 0, K_COINC: 0, K_SQUARE: 0}
+        self.hit_inputs = {K_ANTI: set(), K_COINC: set(), K_SQUARE: set()}
         self.relations = {}
         self.boundary_inputs = 0
+        self.features = {}
 
     def violation(self, key, what, replay):
         if key in self.hits:
@@ -483,6 +485,8 @@ def _jsonable_state(st):
 
 
 def _fail(ctx, key, what, mode, st, call, observed):
+    if key in ctx.hit_inputs:
+        ctx.hit_inputs[key].add(_state_key(st))
     ctx.violation(key, what, {"mode": mode, "inp": _jsonable_state(st["inp"]), "expected": _jsonable_state(st["out"]),
                               "call": call, "observed": observed})
 
@@ -653,18 +657,23 @@ def _haversine_is_nan(p, q):
     return arg > 1.0
 
 
-def _gc_check(ctx, st, what, call, v, c, est, entry, tol=1e-12):
+def _gc_check(ctx, st, what, call, v, c, est, entry, tol=1e-12, scale=1, used=None):
+    """used = (positions (2, k) as passed to the real code, original index of each of them)"""
     inp, out = st["inp"], st["out"]
-    exp = [norm_bins(out["alts"])]
+    exp = scale_exp([norm_bins(out["alts"])], scale)
     bad = compare(exp, v, c, est, tol)
     if not bad:
         return
-    pts = inp["pts"]
-    nanq = frozenset(pr for pr in out["anti"] if _haversine_is_nan(pts[pr[0] - 1], pts[pr[1] - 1]))
+    if used is None:
+        used = (np.array(inp["pts"], dtype=float).T, list(range(len(inp["pts"]))))
+    pos, idx = used
+    where = {int(o): a for a, o in enumerate(idx)}
+    nanq = frozenset(pr for pr in out["anti"] if pr[0] - 1 in where and pr[1] - 1 in where
+                     and _haversine_is_nan(pos[:, where[pr[0] - 1]], pos[:, where[pr[1] - 1]]))
     if nanq:
         for rec in out["bug"]:
             rec = dict(rec)
-            if frozenset(rec["q"]) == nanq and compare([norm_bins(rec["r"])], v, c, est, tol) is None:
+            if frozenset(rec["q"]) == nanq and compare(scale_exp([norm_bins(rec["r"])], scale), v, c, est, tol) is None:
                 _fail(ctx, K_ANTI, "%s: the haversine distance of an antipodal pair is NaN and the pair is counted in every bin "
                       "(pairs %s)" % (what, sorted(nanq)), "gc", st, call, _obs(v, c))
                 return
@@ -767,7 +776,7 @@ ANGLES3 = {(1, 0, 0): (0.0, math.pi / 2), (0, 1, 0): (math.pi / 2, math.pi / 2),
            (-1, 1, 0): (3 * math.pi / 4, math.pi / 2), (0, 0, -2): (0.0, math.pi)}
 
 
-def _check_rel(ctx, st, mode, rel, exp, call, est, kw_desc, tol=1e-12):
+def _check_rel(ctx, st, mode, rel, exp, call, est, kw_desc, tol=1e-12, scale=1, used=None):
     """Run one related call and compare with the (transformed) TLC value."""
     ctx.rel(rel)
     try:
@@ -790,7 +799,7 @@ def _check_rel(ctx, st, mode, rel, exp, call, est, kw_desc, tol=1e-12):
     elif mode == "gc":
         bad = compare(exp, v, c, est, tol)
         if bad:
-            _gc_check(ctx, st, "relation %s" % rel, kw_desc, v, c, est, "rel-" + rel, tol)
+            _gc_check(ctx, st, "relation %s" % rel, kw_desc, v, c, est, "rel-" + rel, tol, scale, used)
             return
     else:
         bad = compare(exp, v, c, est, tol)
@@ -844,15 +853,18 @@ def replay_points_c09(ctx, gs, K, st, mode):
         exp = [norm_bins(out["alts"])]
         ed, base_kw = f_edges(inp["E"]) * (math.pi / 180.0), {"latlon": True}
     est = rng.choice(["m", "c"])
+    if mode != "iso" and any(len(a) > 1 for row in (exp[0] if mode == "dir" else exp) for a in row):
+        ctx.boundary_inputs += 1
 
-    def run(rel, pos, fld, kw=None, e=est, expd=None, edges=None, tol=1e-12, std=False):
+    def run(rel, pos, fld, kw=None, e=est, expd=None, edges=None, tol=1e-12, std=False, scale=1, idx=None):
         k = dict(base_kw)
         k.update(kw or {})
         eg = None if std else (ed if edges is None else edges).copy()
         desc = "vario_estimate(pos=%s, field=%s, bin_edges=%s, estimator=%r, %s)" % (
             np.asarray(pos).tolist() if not isinstance(pos, tuple) else [p.tolist() for p in pos],
             _show(fld), None if eg is None else eg.tolist(), est_name(e), ", ".join("%s=%s" % (a, _show(b)) for a, b in k.items()))
-        _check_rel(ctx, st, mode, rel, exp if expd is None else expd, lambda: call_api(gs, pos, fld, eg, e, **k), e, desc, tol)
+        _check_rel(ctx, st, mode, rel, exp if expd is None else expd, lambda: call_api(gs, pos, fld, eg, e, **k), e, desc, tol, scale,
+                   (np.atleast_2d(np.asarray(pos, dtype=float)), list(range(n)) if idx is None else idx) if mode == "gc" else None)
 
     fld0 = fa if nf > 1 else fa[0]
     # the input itself (both estimators)
@@ -861,7 +873,7 @@ def replay_points_c09(ctx, gs, K, st, mode):
     # permutation of the points
     pi = list(range(n))
     rng.shuffle(pi)
-    run("permutation", pa[:, pi], fa[:, pi] if nf > 1 else fa[0, pi])
+    run("permutation", pa[:, pi], fa[:, pi] if nf > 1 else fa[0, pi], idx=pi)
     # rigid motions
     if mode in ("iso", "dir"):
         t = np.array([rng.randint(-5, 5) for _ in range(dim)], dtype=float)
@@ -892,7 +904,7 @@ def replay_points_c09(ctx, gs, K, st, mode):
         sexp = (scale_exp(exp[0], k), scale_exp(exp[1], k))
     else:
         sexp = scale_exp(exp, k)
-    run("scale-c^2", pa, fld0 * float(k), expd=sexp)
+    run("scale-c^2", pa, fld0 * float(k), expd=sexp, scale=k)
     # mean / trend / normalizer preprocessing with integer valued functions
     run("mean-constant", pa, fld0 + cshift, {"mean": cshift})
     coef = [rng.randint(-2, 2) for _ in range(dim)]
@@ -907,7 +919,8 @@ def replay_points_c09(ctx, gs, K, st, mode):
     # missing values
     if np.isnan(fa).any():
         for label, p_, f_, kw in missing_forms(ctx, fa, pa):
-            run("missing:" + label, p_, f_, kw)
+            run("missing:" + label, p_, f_, kw,
+                idx=[j for j in range(n) if not np.isnan(fa[:, j]).all()] if label == "removed" else None)
     # per-field skipping: the stack is the pair-count weighted mean of its fields
     if nf > 1 and mode != "dir":
         singles = []
@@ -958,7 +971,8 @@ def replay_points_c09(ctx, gs, K, st, mode):
             for gsc in (gs.KM_SCALE, 7.0):
                 c2 = gs.vario_estimate(pa, fld0, latlon=True, geo_scale=gsc)[0]
                 ctx.calls += 1
-                if np.shape(c1) != np.shape(c2) or not np.allclose(c2, gsc * c1, rtol=1e-12, atol=0):
+                # 1e-6: the chord -> arc conversion (arcsin) is ill-conditioned for nearly antipodal boxes (error ~ 1e-8)
+                if np.shape(c1) != np.shape(c2) or not np.allclose(c2, gsc * c1, rtol=1e-6, atol=0):
                     _fail(ctx, "rel:standard-bins:gc:geo_scale", "standard bins with geo_scale=%s are not geo_scale * the radian bins" % gsc,
                           mode, st, "vario_estimate(latlon=%s, field, latlon=True, geo_scale=%s)[0]" % (pa.tolist(), gsc),
                           {"radian": np.asarray(c1).tolist(), "scaled": np.asarray(c2).tolist()})
@@ -1060,6 +1074,7 @@ def replay_axis_c09(ctx, gs, K, st):
             ctx.calls += col.calls
             ctx.rel(rel)
             for _k, what, rp in col.violations:
+                ctx.hit_inputs[K_SQUARE].add(_state_key(st))
                 ctx.violation(K_SQUARE, "a structured mesh whose axes all have length %d (%s grid) is read as 1-D input: %s"
                               % (vals.shape[0], " x ".join(map(str, vals.shape)), what), rp)
             return
@@ -1153,6 +1168,48 @@ REPLAY = {
 }
 
 
+def features(mode, st):
+    """Coverage bookkeeping only (never part of a verdict): which edge cases an input contains."""
+    inp = st["inp"]
+    out = set()
+    E = inp["E"]
+    if E[0] > 0:
+        out.add("first_edge_positive")
+    if mode in ("iso", "dir", "sub", "gc"):
+        pts, flds = inp["pts"], inp["flds"]
+        n = len(pts)
+        if mode != "gc":
+            d2 = [sum((a - b) ** 2 for a, b in zip(pts[j], pts[k])) for j in range(n) for k in range(j + 1, n)]
+            if any(4 * d == e * e for d in d2 for e in E):
+                out.add("pair_exactly_on_edge")
+            if 0 in d2:
+                out.add("coincident_points")
+            if n >= 3:
+                v = [tuple(a - b for a, b in zip(p, pts[0])) for p in pts[1:]]
+                v = [list(x) + [0] * (3 - len(x)) for x in v]
+                cr = lambda a, b: (a[1] * b[2] - a[2] * b[1], a[2] * b[0] - a[0] * b[2], a[0] * b[1] - a[1] * b[0])
+                if all(cr(v[0], w) == (0, 0, 0) for w in v) and all(cr(a, b) == (0, 0, 0) for a in v for b in v):
+                    out.add("collinear_points")
+        else:
+            if st["out"]["anti"]:
+                out.add("antipodal_pair")
+            if any(abs(p[0]) == 90 for p in pts):
+                out.add("pole")
+        if any(x == NAN for f in flds for x in f):
+            out.add("missing_values")
+        if any(all(f[j] == NAN for f in flds) for j in range(n)):
+            out.add("point_without_data")
+        if len(flds) > 1:
+            out.add("several_fields")
+    if mode == "axis":
+        g = inp["grid"]
+        if any(g["mask"]):
+            out.add("masked_cells")
+        if NAN in g["vals"]:
+            out.add("missing_values")
+    return out
+
+
 def _state_key(st):
     return zlib.crc32(repr(tlaval.freeze(st["inp"])).encode())
 
@@ -1182,11 +1239,13 @@ def _work(arg):
             ctx.replayed += 1
             if fn(ctx, gs, K, st):
                 ctx.nontrivial.add(_state_key(st))
+            for ft in features(job["mode"], st):
+                ctx.features[ft] = ctx.features.get(ft, 0) + 1
             if len(ctx.samples) < 1 and ctx.replayed == 3:
                 ctx.samples.append({"mode": job["mode"], "inp": _jsonable_state(st["inp"]), "expected": _jsonable_state(st["out"])})
         res["replay_wall"] = time.time() - t0
     res.update(violations=ctx.violations, calls=ctx.calls, replayed=ctx.replayed, nontrivial=ctx.nontrivial,
-               samples=ctx.samples, hits=ctx.hits, relations=ctx.relations, boundary=ctx.boundary_inputs)
+               samples=ctx.samples, hits=ctx.hits, hit_inputs={k: len(v) for k, v in ctx.hit_inputs.items()}, relations=ctx.relations, boundary=ctx.boundary_inputs, features=ctx.features)
     return res
 
 
@@ -1245,7 +1304,9 @@ def run(pid, tier, seed, replay=None):
     t0 = time.time()
     totals = {"calls": 0, "replayed": 0, "boundary": 0}
     hits = {K_ANTI: 0, K_COINC: 0, K_SQUARE: 0}
+    hit_inputs = dict(hits)
     relations = {}
+    feats = {}
     per_mode = {}
     with mp.get_context("fork").Pool(procs) as pool:
         for res in pool.imap_unordered(_work, [(j, pid, tier, seed, timeout) for j in jobs]):
@@ -1267,18 +1328,22 @@ def run(pid, tier, seed, replay=None):
                 totals[k] += res.get(k, 0) if k != "boundary" else res["boundary"]
             for k in hits:
                 hits[k] += res["hits"][k]
+                hit_inputs[k] += res["hit_inputs"][k]
             for k, v in res["relations"].items():
                 relations[k] = relations.get(k, 0) + v
+            for k, v in res["features"].items():
+                feats[k] = feats.get(k, 0) + v
             pm = per_mode.setdefault(res["mode"], {"inputs": 0, "tlc_s": 0.0, "replay_s": 0.0})
             pm["inputs"] += res["replayed"]
             pm["tlc_s"] += res["tlc"]["wall"]
             pm["replay_s"] += res["replay_wall"]
     print("%d TLC jobs + replay in %.1fs" % (len(jobs), time.time() - t0))
     rep.extra["real_calls"] = totals["calls"]
-    rep.extra["inputs_per_mode"] = {k: {"inputs": v["inputs"], "tlc_cpu_s": round(v["tlc_s"], 1), "replay_cpu_s": round(v["replay_s"], 1)}
+    rep.extra["inputs_per_mode"] = {k: {"inputs": v["inputs"], "tlc_jobs_wall_sum_s": round(v["tlc_s"], 1), "replay_wall_sum_s": round(v["replay_s"], 1)}
                                     for k, v in sorted(per_mode.items())}
     rep.extra["inputs_with_boundary_alternatives"] = totals["boundary"]
-    rep.extra["known_finding_hits"] = hits
+    rep.extra["inputs_with_feature"] = dict(sorted(feats.items()))
+    rep.extra["known_finding_hits"] = {"deviating_real_calls": hits, "distinct_inputs": hit_inputs}
     if relations:
         rep.extra["related_calls_per_relation"] = dict(sorted(relations.items()))
     rep.extra["tlc_invariants"] = C08_INVS if pid == "C08" else {m: ["WellFormed"] + v for m, v in C09_INVS.items()}
